@@ -228,3 +228,36 @@ def r07f(ctx):
             else:
                 ctx.bad(cid, kpv.cls.module.loc(kpv.node), f"{L.qual} computes its _meta ({lpv.cls.qual}._meta), but {L.name}._lower returns {K.qual}(<its own input>, ...) whose _meta is `self.frame._meta`: once lowered, the plan declares the schema of the INPUT (other columns / dtypes / container than the aggregation produces) - optimize() changes the declared schema and persist() freezes the wrong one")
     ctx.floor("lowerings that return a constructed node", n, 25)
+
+
+# ---------------------------------------------------------------------------------------------
+# R07g
+# ---------------------------------------------------------------------------------------------
+
+
+@rule(
+    "R07g",
+    ["C07", "C04"],
+    """A SOURCE THAT ABSORBS PROJECTIONS PROJECTS ITS OWN SCHEMA - sibling agreement: every class with `_absorb_projections = True`
+    receives the selected columns as its `columns` operand and must itself make meta and data follow it: its `_meta` subscripts the
+    full meta by the operand (FromPandas, FromArray, FromMapProjectable, ReadParquet, Timeseries all do). A source that only forwards
+    the list to a wrapped reader inherits that reader's exceptions: dask's read_csv appends the path column whatever `usecols` says, so
+    read_csv(include_path_column=True)[['a', 'b']] declared and computed ['a', 'b', 'path'] once optimized.""",
+)
+def r07g(ctx):
+    model = ctx.model
+    n = 0
+    for c in model.expr_classes():
+        if model.flag(c, "_absorb_projections", default=False) is not True:
+            continue
+        mv = c.provider("_meta")
+        if mv is None or mv.kind == "attr":
+            continue
+        n += 1
+        cid = f"{c.qual}._meta:follows-columns-operand"
+        subs = [x for x in ast.walk(mv.node) if isinstance(x, ast.Subscript) and "columns" in ast.unparse(x.slice)]
+        if subs:
+            ctx.ok(cid, mv.cls.module.loc(mv.node), f"meta is projected by the columns operand (`{ast.unparse(subs[0])[:50]}`)")
+        else:
+            ctx.bad(cid, mv.cls.module.loc(mv.node), f"{c.qual} absorbs column selections (`_absorb_projections`) but {mv.cls.qual}._meta never subscripts the meta by the columns operand, unlike every sibling source: whatever the wrapped reader adds beyond the requested columns (the path column of read_csv) stays in the declared schema and in every partition after the projection was absorbed")
+    ctx.floor("sources that absorb projections", n, 8)
